@@ -1,9 +1,9 @@
 package rules
 
 import (
-	"go/constant"
 	"dirkcheck/internal/an"
 	"dirkcheck/internal/prog"
+	"go/constant"
 
 	"golang.org/x/tools/go/ssa"
 )
